@@ -979,6 +979,10 @@ func main() {
 	emitSpecFacts(w, cryptoP, nut13P, walletP)
 	emitHardenedKeyStart(w, repo)
 
+	// --- token functions (C14) ---
+	emitTokenFacts(w, cashuP)
+	emitTokenCallers(w, parseDir(filepath.Join(repo, "cmd/nutw")))
+
 	w("\nend Gonuts.Gen\n")
 
 	if outPath == "" {
@@ -1487,3 +1491,129 @@ func emitHardenedKeyStart(w func(string, ...any), repo string) {
 	}
 	missing("hdkeychain source not in the module cache")
 }
+
+// ---- token front end (C14): slice expressions, string literals, if-conditions, index expressions and the
+// base64/hex/json/cbor calls of the token functions, in source order (data only; Gonuts/Tie/Token.lean
+// proves them equal to what Model.Token uses) ----
+
+type tokenFnFacts struct {
+	slices  [][3]string // (operand, low, high) of every slice expression
+	strings []string    // string literals
+	conds   []string    // rendered if-conditions
+	indexes []string    // rendered index expressions (x[i])
+	calls   []string    // callees starting with one of the library prefixes, or one of the local decoder names
+}
+
+func tokenFacts(fd *ast.FuncDecl) tokenFnFacts {
+	var f tokenFnFacts
+	if fd == nil || fd.Body == nil {
+		f.strings = []string{"<missing>"}
+		return f
+	}
+	libs := []string{"base64.", "hex.", "json.", "cbor.", "DecodeTokenV3", "DecodeTokenV4"}
+	ast.Inspect(fd.Body, func(n ast.Node) bool {
+		switch x := n.(type) {
+		case *ast.SliceExpr:
+			f.slices = append(f.slices, [3]string{exprString(x.X), exprString(x.Low), exprString(x.High)})
+		case *ast.BasicLit:
+			if x.Kind == token.STRING {
+				if v, err := strconv.Unquote(x.Value); err == nil {
+					f.strings = append(f.strings, v)
+				}
+			}
+		case *ast.IfStmt:
+			f.conds = append(f.conds, exprString(x.Cond))
+		case *ast.IndexExpr:
+			f.indexes = append(f.indexes, exprString(x))
+		case *ast.CallExpr:
+			callee := exprString(x.Fun)
+			for _, l := range libs {
+				if strings.HasPrefix(callee, l) {
+					f.calls = append(f.calls, callee)
+					break
+				}
+			}
+		}
+		return true
+	})
+	return f
+}
+
+func emitTokenFacts(w func(string, ...any), cashuP *pkg) {
+	w("\n/-! ## token functions (C14): slices, literals, conditions, index expressions, library calls -/\n")
+	for _, fn := range [][2]string{
+		{"", "DecodeToken"}, {"", "DecodeTokenV3"}, {"", "DecodeTokenV4"},
+		{"TokenV3", "Serialize"}, {"TokenV4", "Serialize"}, {"TokenV3", "Mint"}, {"TokenV4", "Mint"},
+		{"TokenV3", "Proofs"}, {"TokenV4", "Proofs"}, {"TokenV3", "Amount"}, {"TokenV4", "Amount"},
+		{"", "NewTokenV3"}, {"", "NewTokenV4"},
+	} {
+		name := fn[1]
+		if fn[0] != "" {
+			name = fn[0] + "_" + fn[1]
+		}
+		f := tokenFacts(findFunc(cashuP, fn[0], fn[1]))
+		w("def tok_%s_slices : List (String × String × String) := [", name)
+		for i, r := range f.slices {
+			if i > 0 {
+				w(", ")
+			}
+			w("(%s, %s, %s)", leanStr(r[0]), leanStr(r[1]), leanStr(r[2]))
+		}
+		w("]\n")
+		w("def tok_%s_strings : List String := %s\n", name, leanStrList(f.strings))
+		w("def tok_%s_conds : List String := %s\n", name, leanStrList(f.conds))
+		w("def tok_%s_indexes : List String := %s\n", name, leanStrList(f.indexes))
+		w("def tok_%s_calls : List String := %s\n", name, leanStrList(f.calls))
+	}
+}
+
+// emitTokenCallers: how cmd/nutw hands its command-line argument to cashu.DecodeToken (C14 anchor nutw.go:194):
+// for `receive` and `decode`, the argument expressions of cashu.DecodeToken, the right-hand sides assigned to those
+// argument variables, and the calls made on the decoded token value.
+func emitTokenCallers(w func(string, ...any), nutwP *pkg) {
+	for _, fn := range []string{"receive", "decode"} {
+		fd := findFunc(nutwP, "", fn)
+		args := callArgs(fd, "cashu.DecodeToken")
+		vars := map[string]bool{}
+		for _, a := range args {
+			for _, x := range a {
+				vars[x] = true
+			}
+		}
+		var assigns, tokenCalls []string
+		if fd != nil && fd.Body != nil {
+			ast.Inspect(fd.Body, func(n ast.Node) bool {
+				switch x := n.(type) {
+				case *ast.AssignStmt:
+					for i, l := range x.Lhs {
+						if vars[exprString(l)] && i < len(x.Rhs) {
+							assigns = append(assigns, exprString(l)+x.Tok.String()+exprString(x.Rhs[i]))
+						}
+					}
+				case *ast.CallExpr:
+					callee := exprString(x.Fun)
+					if strings.HasPrefix(callee, "token.") {
+						tokenCalls = append(tokenCalls, callee)
+					}
+					for _, a := range x.Args {
+						if exprString(a) == "token" {
+							tokenCalls = append(tokenCalls, callee+"(token)")
+						}
+					}
+				}
+				return true
+			})
+		}
+		w("def tok_nutw_%s_decodeArgs : List (List String) := [", fn)
+		for i, r := range args {
+			if i > 0 {
+				w(", ")
+			}
+			w("%s", leanStrList(r))
+		}
+		w("]\n")
+		w("def tok_nutw_%s_assigns : List String := %s\n", fn, leanStrList(assigns))
+		w("def tok_nutw_%s_tokenUses : List String := %s\n", fn, leanStrList(tokenCalls))
+	}
+}
+
